@@ -291,15 +291,44 @@ func genClient(repo, out string) error {
 	}
 	b.WriteString("def sites : List Site := [\n" + strings.Join(ss, ",\n") + "]\n\n")
 
+	// the nil check of the decoded / passed payload pointer in unpackPPTPayload: the statement
+	// just before the final return is `if payloadTyped == nil { return … }`
+	nilChecked := false
+	if up, ok := funcs["unpackPPTPayload"]; ok {
+		ufs := fsets["unpackPPTPayload"]
+		l := up.Body.List
+		if n := len(l); n >= 2 {
+			if is, ok := l[n-2].(*ast.IfStmt); ok && exprText(ufs, is.Cond) == "payloadTyped == nil" && endsWithReturn(is.Body) {
+				nilChecked = true
+			}
+		}
+	}
+	fmt.Fprintf(&b, "/-- `unpackPPTPayload` checks `payloadTyped == nil` before dereferencing it. -/\ndef pptNilChecked : Bool := %s\n\n", leanBool(nilChecked))
+
 	// ---- reply rendezvous -----------------------------------------------------------
 	fd, fset, err = need("expectReply")
 	if err != nil {
 		return err
 	}
-	capN, found := -1, 0
+	// expectReply builds `&replyWaiter{ch: make(chan wamp.Message[, n]), gone: make(chan struct{})}`
+	// (or, in the old shape, a bare `make(chan wamp.Message[, n])`).
+	capN, found, hasGone := -1, 0, false
 	ast.Inspect(fd.Body, func(n ast.Node) bool {
-		if ce, ok := n.(*ast.CallExpr); ok {
-			if c, ok := makeChanCap(ce); ok {
+		switch e := n.(type) {
+		case *ast.KeyValueExpr:
+			k := exprText(fset, e.Key)
+			if c, ok := makeChanCap(e.Value); ok {
+				switch k {
+				case "ch":
+					capN = c
+					found++
+				case "gone":
+					hasGone = c == 0
+				}
+			}
+			return false
+		case *ast.CallExpr:
+			if c, ok := makeChanCap(e); ok {
 				capN = c
 				found++
 			}
@@ -307,9 +336,35 @@ func genClient(repo, out string) error {
 		return true
 	})
 	if found != 1 {
-		return fmt.Errorf("expectReply: expected exactly one make(chan …) with a literal capacity, found %d", found)
+		return fmt.Errorf("expectReply: expected exactly one reply channel make(chan …) with a literal capacity, found %d", found)
 	}
-	fmt.Fprintf(&b, "/-- Capacity of the reply channel made in `expectReply`. -/\ndef replyChanCap : Nat := %d\n\n", capN)
+	fmt.Fprintf(&b, "/-- Capacity of the reply channel made in `expectReply`. -/\ndef replyChanCap : Nat := %d\n", capN)
+	fmt.Fprintf(&b, "/-- `expectReply` also makes the waiter's `gone` channel (unbuffered, only ever closed). -/\ndef replyWaiterHasGone : Bool := %s\n\n", leanBool(hasGone))
+
+	// doneWaiting: delete(c.awaitingReply, id) under the lock, then close(w.gone)
+	dwDeletes, dwCloses, dwOrder := 0, 0, false
+	if dw, ok := funcs["doneWaiting"]; ok {
+		dfs := fsets["doneWaiting"]
+		delPos, closePos := token.NoPos, token.NoPos
+		ast.Inspect(dw.Body, func(n ast.Node) bool {
+			if ce, ok := n.(*ast.CallExpr); ok {
+				if id, ok := ce.Fun.(*ast.Ident); ok {
+					if id.Name == "delete" && len(ce.Args) == 2 && exprText(dfs, ce.Args[0]) == "c.awaitingReply" {
+						dwDeletes++
+						delPos = ce.Pos()
+					}
+					if id.Name == "close" && len(ce.Args) == 1 && exprText(dfs, ce.Args[0]) == "w.gone" {
+						dwCloses++
+						closePos = ce.Pos()
+					}
+				}
+			}
+			return true
+		})
+		dwOrder = delPos != token.NoPos && closePos != token.NoPos && delPos < closePos
+	}
+	fmt.Fprintf(&b, "/-- `doneWaiting`: number of `delete(c.awaitingReply, …)`, of `close(w.gone)`, and whether the\n    delete comes first. (All 0/false when the function does not exist.) -/\ndef doneWaitingDeletes : Nat := %d\ndef doneWaitingClosesGone : Nat := %d\ndef doneWaitingDeleteFirst : Bool := %s\n\n",
+		dwDeletes, dwCloses, leanBool(dwOrder))
 
 	fd, fset, err = need("runSignalReply")
 	if err != nil {
@@ -382,7 +437,16 @@ func genClient(repo, out string) error {
 			}
 			return true
 		})
-		fmt.Fprintf(&b, "/-- Number of `delete(c.awaitingReply, …)` statements in `%s`. -/\ndef %sDeletes : Nat := %d\n\n", wf, wf, dels)
+		fmt.Fprintf(&b, "/-- Number of `delete(c.awaitingReply, …)` statements in `%s`. -/\ndef %sDeletes : Nat := %d\n", wf, wf, dels)
+		// calls of c.doneWaiting(id, w) that are top-level statements of the function body (every
+		// path through the select reaches them; the early returns above are on closed channels)
+		dwCalls := 0
+		for _, st := range fd.Body.List {
+			if es, ok := st.(*ast.ExprStmt); ok && exprText(fset, es.X) == "c.doneWaiting(id, w)" {
+				dwCalls++
+			}
+		}
+		fmt.Fprintf(&b, "/-- Top-level `c.doneWaiting(id, w)` statements in `%s`. -/\ndef %sDoneWaitingCalls : Nat := %d\n\n", wf, wf, dwCalls)
 	}
 	// CANCEL mode expression
 	fd, fset, _ = need("waitForReplyWithCancel")
@@ -442,8 +506,115 @@ func genClient(repo, out string) error {
 	if qcap < 0 || rcap < 0 {
 		return fmt.Errorf("runHandleInvocation: handlerQueue/resChan make(chan …) not found")
 	}
+	// the send into the worker's queue: bare, or inside a select (top level of the function)
+	var enqueue []string
+	enqSends := 0
+	for _, st := range fd.Body.List {
+		switch x := st.(type) {
+		case *ast.SendStmt:
+			if exprText(fset, x.Chan) == "handlerQueue" {
+				enqSends++
+				enqueue = nil
+			}
+		case *ast.SelectStmt:
+			cs, err := selectCases(fset, x)
+			if err != nil {
+				return fmt.Errorf("runHandleInvocation: %v", err)
+			}
+			for _, c := range cs {
+				if c == "send handlerQueue" {
+					enqSends++
+					enqueue = cs
+				}
+			}
+		}
+	}
+	if enqSends != 1 {
+		return fmt.Errorf("runHandleInvocation: expected exactly one top-level send into handlerQueue, found %d", enqSends)
+	}
+	fmt.Fprintf(&b, "/-- The comm clauses of the select around `handlerQueue <- msg` ([] = bare send). -/\ndef enqueueSelect : List String := %s\n", leanStrList(enqueue))
+	// invHandlersFinal: gate in the else branch of `if !queueExists`, set for non-progressive messages,
+	// cleared in cleanupInvHandlersQueue
+	finalGate, finalSet, finalCleared := false, false, false
+	ast.Inspect(fd.Body, func(n ast.Node) bool {
+		is, ok := n.(*ast.IfStmt)
+		if !ok {
+			return true
+		}
+		if exprText(fset, is.Cond) == "!queueExists" {
+			if eb, ok := is.Else.(*ast.BlockStmt); ok && len(eb.List) > 0 {
+				if g, ok := eb.List[0].(*ast.IfStmt); ok && g.Init != nil &&
+					exprText(fset, g.Init) == "_, final := c.invHandlersFinal[cliInvocation]" &&
+					exprText(fset, g.Cond) == "final" && endsWithReturn(g.Body) {
+					finalGate = true
+				}
+			}
+		}
+		if is.Init != nil && exprText(fset, is.Init) == "inProgress, _ := msg.Details[wamp.OptProgress].(bool)" &&
+			exprText(fset, is.Cond) == "!inProgress" && len(is.Body.List) == 1 &&
+			exprText(fset, is.Body.List[0]) == "c.invHandlersFinal[cliInvocation] = struct{}{}" {
+			finalSet = true
+		}
+		return true
+	})
+	if cl, ok := funcs["cleanupInvHandlersQueue"]; ok {
+		cfs := fsets["cleanupInvHandlersQueue"]
+		ast.Inspect(cl.Body, func(n ast.Node) bool {
+			if ce, ok := n.(*ast.CallExpr); ok && exprText(cfs, ce) == "delete(c.invHandlersFinal, cliInvocation)" {
+				finalCleared = true
+			}
+			return true
+		})
+	}
+	fmt.Fprintf(&b, "/-- `invHandlersFinal`: a further INVOCATION for a live queue whose final message was already\n    received is dropped; the mark is set for every non-progressive message and cleared by cleanup. -/\ndef invFinalGate : Bool := %s\ndef invFinalSet : Bool := %s\ndef invFinalCleared : Bool := %s\n",
+		leanBool(finalGate), leanBool(finalSet), leanBool(finalCleared))
 	fmt.Fprintf(&b, "/-- Capacity of the per-invocation `handlerQueue` and of `resChan`. -/\ndef invQueueCap : Nat := %d\ndef resChanCap : Nat := %d\n", qcap, rcap)
 	fmt.Fprintf(&b, "/-- A worker is only created after `UpdateLastRecvIDLocked(reqID)` accepted the id\n    (first statement of the `!queueExists` branch returns otherwise). -/\ndef invGateChecked : Bool := %s\n\n", leanBool(gate))
+
+	// ---- aborting the session; who closes the peer ---------------------------------------
+	var abortSel []string
+	abortEndsRecv := false
+	if ab, ok := funcs["abortSession"]; ok {
+		afs := fsets["abortSession"]
+		if len(ab.Body.List) == 2 {
+			if sel, ok := ab.Body.List[0].(*ast.SelectStmt); ok {
+				cs, err := selectCases(afs, sel)
+				if err != nil {
+					return fmt.Errorf("abortSession: %v", err)
+				}
+				abortSel = cs
+			}
+			abortEndsRecv = exprText(afs, ab.Body.List[1]) == "c.sess.EndRecv(nil)"
+		}
+	}
+	fmt.Fprintf(&b, "/-- `abortSession`: the select around the ABORT send, then `c.sess.EndRecv(nil)` ([] / false when the\n    function does not exist or has another shape). -/\ndef abortSessionSelect : List String := %s\ndef abortSessionEndsRecv : Bool := %s\n",
+		leanStrList(abortSel), leanBool(abortEndsRecv))
+	var closers, aborters []string
+	for name, f := range funcs {
+		ffs := fsets[name]
+		nClose, nAbort := 0, 0
+		ast.Inspect(f.Body, func(n ast.Node) bool {
+			if ce, ok := n.(*ast.CallExpr); ok {
+				switch exprText(ffs, ce.Fun) {
+				case "c.sess.Close":
+					nClose++
+				case "c.abortSession":
+					nAbort++
+				}
+			}
+			return true
+		})
+		for i := 0; i < nClose; i++ {
+			closers = append(closers, name)
+		}
+		for i := 0; i < nAbort; i++ {
+			aborters = append(aborters, name)
+		}
+	}
+	sort.Strings(closers)
+	sort.Strings(aborters)
+	fmt.Fprintf(&b, "/-- Functions calling `c.sess.Close()` / `c.abortSession(…)`, once per call site. -/\ndef sessCloseCallers : List String := %s\ndef abortSessionCallers : List String := %s\n\n",
+		leanStrList(closers), leanStrList(aborters))
 
 	// ---- constants ----------------------------------------------------------------------
 	ms, err := durationMs(consts["defaultResponseTimeout"])
@@ -525,6 +696,11 @@ func genClient(repo, out string) error {
 		"Publish", "Register", "Unregister", "Call", "CallProgressive", "Close", "SendProgress", "expectReply", "waitForReply",
 		"waitForReplyWithCancel", "run", "runReceiveFromRouter", "runHandleEvent", "cleanupInvHandlersQueue",
 		"runHandleInvocation", "runHandleInterrupt", "runSignalReply", "prepareCallResultMessage"}
+	for _, extra := range []string{"doneWaiting", "abortSession"} {
+		if _, ok := funcs[extra]; ok {
+			modelled = append(modelled, extra)
+		}
+	}
 	var hs []string
 	for _, name := range modelled {
 		fd, fset, err := need(name)
@@ -761,6 +937,11 @@ func collectSites(fset *token.FileSet, file string, fd *ast.FuncDecl) ([]clientS
 			isArgs := base == "args" || strings.HasSuffix(base, ".Arguments") || base == "Arguments"
 			if isArgs || (litIdx && e.Index.(*ast.BasicLit).Kind == token.INT) {
 				kind := "index"
+				// "index-guarded": a literal index 0 into a slice the function has checked to be
+				// non-empty with a leading `if len(X) == 0 { …; return … }`
+				if litIdx && e.Index.(*ast.BasicLit).Value == "0" && lenGuarded(fset, fd, base) {
+					kind = "index-guarded"
+				}
 				// "index-ranged": the index is the key variable of an enclosing `for i := range X`
 				// and the indexed slice is X itself or was made with make(T, len(X)).
 				if id, ok := e.Index.(*ast.Ident); ok {
@@ -812,4 +993,33 @@ func madeWithLenOf(fset *token.FileSet, fd *ast.FuncDecl, name, of string) bool 
 		return true
 	})
 	return assigns == 1 && good == 1
+}
+
+// lenGuarded: one of the leading statements of fd is `if len(base) == 0 { … return … }`, and
+// nothing before it or between it and the use assigns to base (checked: base is never assigned).
+func lenGuarded(fset *token.FileSet, fd *ast.FuncDecl, base string) bool {
+	assigned := false
+	ast.Inspect(fd.Body, func(n ast.Node) bool {
+		if as, ok := n.(*ast.AssignStmt); ok {
+			for _, l := range as.Lhs {
+				if exprText(fset, l) == base {
+					assigned = true
+				}
+			}
+		}
+		return true
+	})
+	if assigned {
+		return false
+	}
+	for _, st := range fd.Body.List {
+		is, ok := st.(*ast.IfStmt)
+		if !ok {
+			break // only leading if-statements count
+		}
+		if exprText(fset, is.Cond) == "len("+base+") == 0" && is.Init == nil && endsWithReturn(is.Body) {
+			return true
+		}
+	}
+	return false
 }
